@@ -141,8 +141,8 @@ export function makeBuilder(cg) {
     throw new Error("bad rt " + h);
   }
   return function buildEnv(envSx, rtSx) {
-    const table = {};
-    for (const [name, r] of envSx) table[name] = build(r, table, undefined);
+    const table = Object.create(null);
+    for (const [name, r] of envSx) Object.defineProperty(table, name, { value: build(r, table, undefined), enumerable: true, writable: true, configurable: true });
     return { table, rt: build(rtSx, table, undefined) };
   };
 }
